@@ -19,7 +19,7 @@ RULE = (
     "x scopes; seeded random grammar strings (size 3..9 quick, ..14 thorough, longer atoms, 30-digit literals); same-level chains; "
     "name= prefixes; expressions as axes of a dltyped function behind a scope provider (zero sizes included); identifier-free expressions as dimensions of an annotation checked against arrays; one expression object evaluated under a sequence of scopes (with an unbound name / a zero in between); non-trivial = distinct line whose string has >=1 operator and lies in the documented grammar (spec oracle)"
 )
-RULE += " Also: every finished evaluation yields an integer (exponents that come out negative under the scope); identifiers that begin / end with or contain a function name."
+RULE += " Also: every finished evaluation yields an integer (exponents that come out negative under the scope); identifiers that begin / end with or contain a function name. Parsing after 60 rejected strings (errors inside parentheses) equals parsing before them."
 
 
 def cases(tier, rng, run):
